@@ -17,6 +17,7 @@ func init() {
 			"C02.3 the K-nearest order is oriented by XOR distance to the construction-time target, left operand first (shared with C18); " +
 			"C02.4 Push inserts the element it was given, deletes only the iterator's last (farthest) element and only while Len > k, and returns only under ¬(Len > k); Farthest returns that same last element; Full ⇔ Len ≥ k; " +
 			"C02.5 closest, unqueried, queried and outstanding are only touched with Operation.mu held; " +
+			"C02.8 on every path of the query goroutine from the return of DoQuery to its end, a result with ResponseFrom ≠ nil is handed to the insertion routine (no early exit on cancellation, stop or error in between); C02.9 the result set never merges two different responders (order totality, C18.3); " +
 			"C02.6/C02.7 a response is in the result set before its query stops counting as in flight, and 'stopped' is signalled only after the in-flight count reached zero, so the set read after Stopped is final.",
 		NotDecided: "that the retained elements are the K nearest (needs the metric laws of C18 and the sorted-map semantics of the immutable library), exactness on ideal networks, duplicate-ID behaviour, haveQuery's distance arithmetic.",
 		Assume: []string{
@@ -30,6 +31,8 @@ func init() {
 			{ID: "C02.4", Doc: "bounded trim from the far end", Floor: 6, Run: c02r4},
 			{ID: "C02.5", Doc: "traversal state guarded by Operation.mu", Floor: 15, Run: c02r5},
 			{ID: "C02.7", Doc: "the result set is final when the lookup reports stopped: stopped is signalled only after every in-flight query returned (shared with C03.4)", Floor: 5, Run: c03r4},
+			{ID: "C02.8", Doc: "every response that comes back is offered to the result set, whatever else happened to the lookup meanwhile", Floor: 2, Run: c02r8},
+			{ID: "C02.9", Doc: "distinct responders are distinct keys: the result set's order is total (shared with C18.3)", Floor: 4, Run: c18r3},
 			{ID: "C02.6", Doc: "a response is registered in the result set before its query stops counting as in flight (shared with C03.2)", Floor: 5, Run: c03r2},
 		},
 	})
@@ -520,4 +523,129 @@ func (w *World) paramOf(v ssa.Value) (*ssa.Parameter, bool) {
 		}
 	}
 	return nil, false
+}
+
+// c02r8: completeness of the result set. "No responder that passed the filters but is absent is
+// strictly closer" needs every responder to be offered. In the goroutine that runs DoQuery:
+// (1) every path from the return of DoQuery to the end of the goroutine passes the test
+// "ResponseFrom ≠ nil"; (2) every path from the non-nil branch of that test to the end passes a call
+// of the insertion routine (directly, or in a closure invoked on the spot that always calls it).
+func c02r8(w *World, rr *RuleRun) {
+	t := w.trav()
+	resp := w.P.Field("traversal", "QueryResult", "ResponseFrom")
+	isOffer := func(f *ssa.Function) bool { _, ok := w.FE.extraTracked[f]; return ok }
+	var offers func(ins ssa.Instruction, depth int) bool
+	offers = func(ins ssa.Instruction, depth int) bool {
+		if callInstrCommon(ins) == nil {
+			return false
+		}
+		if _, isGo := ins.(*ssa.Go); isGo {
+			return false
+		}
+		for _, e := range w.CG.SiteOut[ins] {
+			if isOffer(e.Callee) {
+				return true
+			}
+			if depth < 2 && e.Callee.Parent() != nil && len(e.Callee.Blocks) > 0 && len(w.CG.SiteOut[ins]) == 1 {
+				first := e.Callee.Blocks[0].Instrs[0]
+				if ok, _ := MustPass(first, func(i ssa.Instruction) bool { return offers(i, depth+1) }); ok || offers(first, depth+1) {
+					return true
+				}
+			}
+		}
+		return false
+	}
+	n := 0
+	for _, dq := range w.doQuerySites(t) {
+		n++
+		// the instruction whose value is the query result in the goroutine's own function: the
+		// DoQuery call itself, or the call of an extracted helper that returns DoQuery's result
+		var site ssa.Instruction = dq
+		resT := w.TS.Of(dq)
+		for depth := 0; depth < 3; depth++ {
+			f := site.Parent()
+			if f.Parent() != nil || f.Object() == nil || f.Object().Exported() {
+				break
+			}
+			var es []*Edge
+			for _, e := range w.CG.CallersOf(f) {
+				if !e.Callback {
+					es = append(es, e)
+				}
+			}
+			if len(es) != 1 || es[0].Mode != ModeSync {
+				break
+			}
+			returnsRes := true
+			eachInstr([]*ssa.Function{f}, func(_ *ssa.Function, ins ssa.Instruction) {
+				if r, ok := ins.(*ssa.Return); ok {
+					if len(r.Results) != 1 || !termEq(w.TS.Of(r.Results[0]), resT) {
+						returnsRes = false
+					}
+				}
+			})
+			cv, isVal := es[0].Site.(ssa.Value)
+			if !returnsRes || !isVal {
+				break
+			}
+			site, resT = es[0].Site, w.TS.Of(cv)
+		}
+		// the nil tests of res.ResponseFrom
+		isTest := func(ins ssa.Instruction) bool {
+			iff, ok := ins.(*ssa.If)
+			if !ok {
+				return false
+			}
+			for _, at := range w.FE.decompose(w.TS.Of(iff.Cond), true) {
+				if at.term != nil && strings.HasPrefix(at.key, "n:") && isFieldTerm(at.term, resp) && termEq(at.term.Args[0], resT) {
+					return true
+				}
+			}
+			return false
+		}
+		ok1, wit := MustPass(site, isTest)
+		det := ""
+		if wit != nil {
+			det = "exit at " + w.P.InstrPos(wit) + " is reachable from the DoQuery call without testing res.ResponseFrom"
+		}
+		rr.At(w, site, "no way out of the query goroutine between the return of DoQuery and the test of res.ResponseFrom", ok1, det)
+		// non-nil branches
+		nT := 0
+		eachInstr([]*ssa.Function{site.Parent()}, func(_ *ssa.Function, ins ssa.Instruction) {
+			if !isTest(ins) {
+				return
+			}
+			iff := ins.(*ssa.If)
+			nonNilOnTrue := false
+			for _, at := range w.FE.decompose(w.TS.Of(iff.Cond), true) {
+				if strings.HasPrefix(at.key, "n:") && at.sign {
+					nonNilOnTrue = true
+				}
+			}
+			succ := iff.Block().Succs[1]
+			if nonNilOnTrue {
+				succ = iff.Block().Succs[0]
+			}
+			if len(succ.Instrs) == 0 {
+				return
+			}
+			nT++
+			first := succ.Instrs[0]
+			ok2, wit2 := MustPass(first, func(i ssa.Instruction) bool { return offers(i, 0) })
+			if offers(first, 0) {
+				ok2 = true
+			}
+			d2 := ""
+			if !ok2 && wit2 != nil {
+				d2 = "the goroutine can end at " + w.P.InstrPos(wit2) + " with a response in hand that was never offered"
+			}
+			rr.At(w, ins, "a response (ResponseFrom ≠ nil) is always offered to the result set", ok2, d2)
+		})
+		if nT == 0 {
+			rr.At(w, site, "a response (ResponseFrom ≠ nil) is always offered to the result set", false, "no test of res.ResponseFrom found after the DoQuery call")
+		}
+	}
+	if n == 0 {
+		rr.Oblige("traversal", "a response (ResponseFrom ≠ nil) is always offered to the result set", "-", false, "no DoQuery site")
+	}
 }
